@@ -3,7 +3,7 @@
 # the translator's own correspondence: the Go functions go2lean translates vs the regenerated definitions (Gen/Src.lean)
 _SRC_STREAM = {"name": "src", "quick": 4000, "thorough": 150000, "thorough_seeds": 2}
 _SRC_RULE = (" `src`: the functions harness/cmd/go2lean translates (kademlia distance functions, the ten mux/demux functions, fragswarm "
-             "newMessage/parseMessage, mbapp header accessors, bitmap and collector histories, p2pke classifiers and header, runs of the "
+             "newMessage/parseMessage and aggregator, mbapp header accessors, bitmap and collector histories, p2pke classifiers, header and session gates, p2p.VecSize/VecBytes, runs of the "
              "wireguard replay filter) on related/boundary inputs; the Lean driver evaluates the REGENERATED definitions on the same "
              "inputs, panics included: the translator and Src/Rt.lean are compared with the Go compiler on every run.")
 _CACHE_STREAM = {"name": "cache", "quick": 30000, "thorough": 400000, "thorough_seeds": 4, "stateful": True, "seq_start": "new"}
@@ -51,7 +51,7 @@ _HUB_ASSUME = ["Go runtime semantics are modelled, not verified: a select picks 
 
 PROPS = {
     "C01": {"streams": [{"name": "stack", "quick": 700, "thorough": 20000, "thorough_seeds": 3, "stateful": True, "seq_start": "stack-new"},
-                        _FRAG_STREAM, {"name": "mux", "quick": 3000, "thorough": 100000, "thorough_seeds": 2}],
+                        _FRAG_STREAM, {"name": "mux", "quick": 3000, "thorough": 100000, "thorough_seeds": 2}, _SRC_STREAM],
             "oracles": ["swarm", "frag", "mux"], "oracle_n": {"quick": 32, "thorough": 640},
             "oracle_n_by": {"mux": {"quick": 4000, "thorough": 200000}, "frag": {"quick": 3000, "thorough": 100000}},
             "rule": "the multiplexer functions are handed the caller's vector as 1-3 segments with spare capacity and must leave it as it was; stack stream: random nestings of 0-3 multiplexer channels (all five kinds) around at most one fragmenting swarm over an "
@@ -125,7 +125,7 @@ PROPS = {
                             "streams but not modelled"]},
     "C02": {"streams": [_KE_STREAM, {"name": "replay", "quick": 60000, "thorough": 2000000, "thorough_seeds": 2, "stateful": True, "seq_start": "rp-new"}, _SRC_STREAM], "oracles": ["ke"], "rule": _KE_RULE + _SRC_RULE, "assumptions": _KE_ASSUME,
             "oracle_n": {"quick": 3000, "thorough": 60000}},
-    "C03": {"streams": [_KE_STREAM], "oracles": ["ke"], "rule": _KE_RULE, "assumptions": _KE_ASSUME,
+    "C03": {"streams": [_KE_STREAM, _SRC_STREAM], "oracles": ["ke"], "rule": _KE_RULE + _SRC_RULE, "assumptions": _KE_ASSUME,
             "oracle_n": {"quick": 3000, "thorough": 60000}},
     "C06": {"streams": [_KE_STREAM], "oracles": ["ke"], "rule": _KE_RULE, "assumptions": _KE_ASSUME,
             "oracle_n": {"quick": 3000, "thorough": 60000}},
@@ -144,7 +144,7 @@ PROPS = {
                         "mbapp origin time and timeout are wall-clock values taken from the implementation's packets"],
     },
     "C09": {
-        "streams": [_FRAG_STREAM, {"name": "mux", "quick": 6000, "thorough": 300000, "thorough_seeds": 3}],
+        "streams": [_FRAG_STREAM, {"name": "mux", "quick": 6000, "thorough": 300000, "thorough_seeds": 3}, _SRC_STREAM],
         "oracles": ["frag", "mux", "swarm"], "oracle_n_by": {"swarm": {"quick": 32, "thorough": 640}},
         "rule": "swarm oracle: on 14 real stacks (incl. QUIC and SSH over loopback) Tells at MTU-1/MTU/MTU+1 and Asks with requests of "
                 "MTU-5..MTU (answered) and MTU+1 (refused with the MTU error); payload lengths 0, 1, part size +-1, 2 and 3 parts, MTU-1, MTU, MTU+1 against fragswarm/mbapp over inner MTUs "
